@@ -336,7 +336,7 @@ def r11_calibration_numeric(ctx, R='C09.R11'):
   from sa.consteval import Ext, Ref  # pylint: disable=g-import-not-at-top
   from sa.ndarr import NdArr  # pylint: disable=g-import-not-at-top
   from sa.rules import c11  # pylint: disable=g-import-not-at-top
-  rs = ctx.rule(R, 'calibration, numerically: moving average of the true per-sample min/max in dataset order, constants exact, D1 then D2 == D1+D2, previous result untouched', floor=1)
+  rs = ctx.rule(R, 'calibration, numerically (stateful stand-in model): moving average of the true per-sample min/max in dataset order, every sample from the initial state, constants exact, D1 then D2 == D1+D2, previous result untouched', floor=1)
   cal = ctx.repo.func(f'{CAL}.calibrate')
   load = ctx.repo.func(f'{CAL}.load_model_qsvs')
   getq = ctx.repo.func(f'{CAL}.get_model_qsvs')
@@ -369,10 +369,24 @@ def r11_calibration_numeric(ctx, R='C09.R11'):
     except (KeyError, TypeError):
       raise index.AnalysisError(f'{R}: registry lookup with an undecided key ({alg!r}, {op!r})')
 
+  # The stand-in model is STATEFUL (a variable tensor, e.g. a recurrent hidden state): what an invocation leaves behind
+  # shifts the contents of `h` and `y` in the next one unless the interpreter's variables are reset in between. The true
+  # per-sample min / max of the property are those of a model that starts every sample from its initial state.
+  state = {'carry': 0}
+
   def invoke(a, k):
     current.clear()
-    current.update(sample(a[1]['k']))
+    smp = sample(a[1]['k'])
+    if state['carry']:
+      for n_ in ('h', 'y'):
+        smp[n_] = NdArr(smp[n_].shape, [v + 100 * state['carry'] for v in smp[n_].data], 'f')
+    current.update(smp)
+    state['carry'] += 1
     return {}
+
+  def reset(a, k, kind=None):
+    state['carry'] = 0
+    return None
   hooks = {
       c11.CHECK_FQ: (lambda a, k: c11._mk_interp(ctx).hooks[c11.CHECK_FQ](a, k)),  # pylint: disable=protected-access
       'algorithm_manager.get_init_qsv_func': lambda a, k: lookup(a[0], a[1], 'init'),
@@ -385,10 +399,11 @@ def r11_calibration_numeric(ctx, R='C09.R11'):
   store = {'.*': [c11._recipe('.*', OP['ALL_SUPPORTED'], MM, srq)]}  # pylint: disable=protected-access
 
   def new_cal(it):
-    return Obj(CAL, {'_flatbuffer_model': model(), '_tfl_interpreter': Obj('x:Interpreter', {'reset_all_variables': shared._StandIn(lambda a, k, kind=None: None, 'r')}),  # pylint: disable=protected-access
+    return Obj(CAL, {'_flatbuffer_model': model(), '_tfl_interpreter': Obj('x:Interpreter', {'reset_all_variables': shared._StandIn(reset, 'r')}),  # pylint: disable=protected-access
                      '_tensor_content_map': {}, '_model_qsvs': {}, '_cached_output': []})
 
   def run(it, calo, ks):
+    state['carry'] = 0   # a new interpreter starts from the initial state
     rm = Obj('recipe_manager:RecipeManager', {'_scope_configs': store})
     o = it.outcomes(cal, [calo, [{'k': k} for k in ks], rm, 'sig'], copy_args=False)
     return len(o) == 1 and o[0].kind == 'return', o
